@@ -17,6 +17,8 @@ Driver for C15.  `geomv_c15 judge` reads lines
                         (Similar is a function of the VALUES of its operands); an answer that
                         changes when other goroutines call Similar at the same time on their own
                         operands (lines tagged `conc-…`, see harness/cmd/c15/conc.go).
+Lines tagged `nilm` hold nil interface values (outside the property): there the answers, panics
+included, are compared with the fault model `simE` (DIFF when they differ).
 -/
 namespace GeomV.C15
 open GeomV
@@ -59,7 +61,20 @@ def judgeLine (line : String) : String :=
           | _ => (rhs, "")
         match rhs with
         | [r1, r2] =>
-          if r1.startsWith "modified" || r2.startsWith "modified" then
+          if tagName == "nilm" then
+            -- nil interface members / operands: outside the property; the code's panics are compared
+            -- with the modelled faults (`simE`), call direction by call direction
+            let show' (r : Except Fault Bool) : String := match r with
+              | .ok b => b2s b
+              | .error _ => "panic"
+            let norm (r : String) : String :=
+              if r.startsWith "panic:" then
+                (if (r.splitOn "nil_pointer_dereference").length > 1 then "panic" else r) else r
+            let m1 := show' (simE ga e gb)
+            let m2 := show' (simE gb e ga)
+            if m1 != norm r1 || m2 != norm r2 then s!"DIFF {cls} model={m1},{m2} impl={r1},{r2}"
+            else s!"OK {cls}"
+          else if r1.startsWith "modified" || r2.startsWith "modified" then
             s!"SPEC {cls} operand-modified {r1} {r2}{lay}"
           else if r1.startsWith "unstable" || r2.startsWith "unstable" then
             s!"SPEC {cls} answer-depends-on-earlier-calls {r1} {r2}{lay}"
